@@ -17,20 +17,23 @@ StatusNum(st) == CASE st = "absent" -> 0 [] st = "fwd" -> 1 [] st = "fwdg" -> 2 
 RECURSIVE Code(_, _)
 Code(c, n) == IF n = 0 THEN 0 ELSE StatusNum(c[n]) + 5 * Code(c, n - 1)
 \* libraries are interchangeable (every request order is explored): keep one content per multiset
-Canonical(ct) == \A k \in 1..(Len(LibOrder) - 1) : Code(ct[LibOrder[k]], NT) <= Code(ct[LibOrder[k + 1]], NT)
+BadNum(x) == CASE x = "ok" -> 0 [] x = "missing" -> 1 [] x = "stale" -> 2
+Key(l) == 3 * Code(content[l], NT) + BadNum(bad[l])
+Canonical == \A k \in 1..(Len(LibOrder) - 1) : Key(LibOrder[k]) <= Key(LibOrder[k + 1])
 
-InitMC == Init /\ Canonical(content)
+InitMC == Init /\ Canonical
 SpecMC == InitMC /\ [][Next]_vars
 
 Recs(fn) == {[i |-> i, r |-> fn[i]] : i \in DOMAIN fn}
 FileJson(file) == [w |-> Recs(file.w), f |-> Recs(file.f), t |-> Recs(file.t), m |-> Recs(file.m),
                    e |-> Recs(file.e), s |-> Recs(file.s)]
-ContentJson == [l \in Libs |-> [n \in 1..NT |-> content[l][n]]]
+\* the statuses of the type names, then what is wrong with the file
+ContentJson == [l \in Libs |-> [n \in 1..(NT + 1) |-> IF n <= NT THEN content[l][n] ELSE bad[l]]]
 
 Emit(rec) == CSVWrite("%1$s", <<ToJson(rec)>>, DumpFile)
 
 IsInitial == pc = "idle" /\ requested = {} /\ hist = <<>>
-AfterAnswer == pc = "idle" /\ requests = <<>> /\ loaded # <<>> /\ ans # <<>> /\ fresh = LookupKinds
+AfterAnswer == pc = "idle" /\ requests = <<>> /\ requested # {} /\ ans # <<>> /\ fresh = LookupKinds
 Complete == AfterAnswer /\ requested = Libs /\ hist # <<>> /\ hist[Len(hist)].op = "Q"
 
 \* with the history recorded, many histories reach the same (content, load order): the projection is
@@ -42,7 +45,7 @@ DumpConstraint ==
   ELSE /\ ("C" \in DumpKinds /\ IsInitial) =>
              Emit([k |-> "C", content |-> ContentJson, files |-> [l \in Libs |-> FileJson(files[l])],
                    count |-> [l \in Libs |-> FileCount(files[l])]])
-       /\ ("P" \in DumpKinds /\ AfterAnswer /\ modules = <<>> /\ Stepwise) =>
+       /\ ("P" \in DumpKinds /\ AfterAnswer /\ (modules = <<>> \/ loaded = <<>>) /\ Stepwise) =>
              Emit([k |-> "P", content |-> ContentJson, loaded |-> loaded, proj |-> Project(db)])
        /\ ("B" \in DumpKinds /\ RecordHist /\ Complete) =>
              Emit([k |-> "B", content |-> ContentJson, hist |-> hist])
